@@ -160,7 +160,7 @@ pub struct Case {
     pub copattern: bool,
 }
 
-const CTOR_NAMES: [&str; 6] = ["A", "B", "C", "E", "G", "H"];
+const CTOR_NAMES: [&str; 16] = ["A", "B", "C", "E", "G", "H", "J", "K", "L", "M", "N", "Q", "R", "S", "V", "W"];
 const FIELD_NAMES: [&str; 3] = ["x", "y", "z"];
 
 fn gen_ty(rng: &mut Rng, n_data: usize, depth: usize, allow_self: Option<usize>) -> Ty {
@@ -190,18 +190,22 @@ fn gen_decls(rng: &mut Rng) -> Vec<DataDecl> {
     let n = 1 + rng.below(4) as usize;
     let mut decls = Vec::new();
     for d in 0..n {
-        let n_ctors = match rng.below(10) {
+        let n_ctors = match rng.below(12) {
             | 0 => 0,
             | 1..=3 => 1,
             | 4..=7 => 2,
-            | _ => 3,
+            | 8 | 9 => 3,
+            // wide types: around and beyond the limit of reported witnesses
+            | 10 => 7 + rng.below(4) as usize,
+            | _ => 10 + rng.below(7) as usize,
         };
         let recursive = n_ctors >= 2 && rng.chance(1, 3);
         let mut ctors = Vec::new();
         for c in 0..n_ctors {
             // the first constructor of a recursive type is a base case, so the type is inhabited
             let allow_self = (recursive && c > 0).then_some(d);
-            let ty = gen_ty(rng, d, 2, allow_self);
+            // wide types carry small payloads
+            let ty = if n_ctors > 3 && !rng.chance(1, 6) { Ty::Unit } else { gen_ty(rng, d, 2, allow_self) };
             ctors.push((CTOR_NAMES[c].to_string(), ty));
         }
         let mentions_self = ctors.iter().any(|(_, t)| mentions(t, d));
@@ -318,7 +322,7 @@ pub fn gen_case(rng: &mut Rng) -> Case {
             arms
         }
     };
-    arms.truncate(10);
+    arms.truncate(20);
     let copattern = rng.chance(1, 5);
     Case { decls, scrut, arms, copattern }
 }
